@@ -15,8 +15,9 @@ batches, `sign` with arbitrary signer / account-store / store faults and arbitra
                   and the staging area of the database at the moment of return.
 
 `manager.BatchSign` and the handler's `Sign` case are the *interpreted regenerated programs*
-(`Pool.Gen.C05.batchSignProg`, `handlerSignProg`); `C05_batchSign_order` / `C05_handler_order` are the
-obligations that tie every theorem below to the statement order of the Go source.
+(`Pool.Gen.C05.batchSignProg`, `handlerSignProg`); `C05_batchSign_order` (exact statement order) and
+`C05_handler_order` (structural check, tolerant of harmless reorderings) are the obligations that tie every
+theorem below to the Go source.
 -/
 set_option linter.unusedSimpArgs false
 set_option linter.unusedVariables false
@@ -31,14 +32,13 @@ on error return `nil, nil, …`; only then `return sig, nonces, nil`. -/
 theorem C05_batchSign_order (s : St) (f : Faults) : batchSign s f = batchSignSpec s f :=
   batchSign_eq_spec s f
 
-/-- (R) the `Sign` case of `handleServerMessage`, as regenerated from the Go source, is the decision tree
-`handleSignSpec` (parse; channel setup; `BatchSign`; `sendSignBatch` – each followed by a reject-and-return
-on error). -/
-theorem C05_handler_order (s : St) (env : HEnv) :
-    (handleSign s env).st = (handleSignSpec s env).st ∧
-    (handleSign s env).trace.reverse = (handleSignSpec s env).trace ∧
-    (handleSign s env).panicked = (handleSignSpec s env).panicked :=
-  handleSign_eq_spec s env
+/-- (R) the `Sign` case of `handleServerMessage`, as regenerated from the Go source, passes the structural
+check `safeSign`: every `BatchSign` call is immediately followed by
+`if err != nil { return s.sendRejectBatch(…) }`, `sendSignBatch(batch, sigs, nonces, …)` occurs only after
+such a checked `BatchSign`, and the case ends with a `return`.  Where the other statements (parsing, the two
+assignments, channel setup, logging, the nil-batch guard) stand does not matter – a harmless reordering keeps
+this `decide` true, moving `sendSignBatch` before `BatchSign` or dropping the error check makes it false. -/
+theorem C05_handler_order : safeSign (handlerSignProg.map parseH) = true := by decide
 
 /-- (R) the sighash types in the Go source are SIGHASH_ALL (p2wsh) and SIGHASH_DEFAULT (taproot), the two
 that commit to every input and every output; the signer matches inputs by the stored outpoint over
@@ -56,11 +56,11 @@ theorem C05_signer_source_shape :
 
 /-- **Invariant.**  After every history the manager's pending batch is (up to the volatile Sign-message
 fields) the batch of the most recent successful verification, and that batch satisfied the verifier. -/
-theorem pending_is_last_verified (verifyOk : Batch → Bool) (accts : List Acct) (orders : List Ord)
+theorem pending_is_last_verified (verifyOk : St → Batch → Bool) (accts : List Acct) (orders : List Ord)
     (ops : List Op) :
-    let r := grun verifyOk (initSt accts orders) ⟨none, []⟩ ops
+    let r := grun verifyOk (initSt accts orders) ⟨none, none, []⟩ ops
     r.1.pending.map Batch.core = r.2.lastVerified.map Batch.core ∧
-    ∀ b, r.2.lastVerified = some b → verifyOk b = true := by
+    ∀ b, r.2.lastVerified = some b → ∃ s0, r.2.verifiedAt = some s0 ∧ verifyOk s0 b = true := by
   have h := inv_grun verifyOk _ _ ops (inv_init verifyOk accts orders)
   exact ⟨h.1, h.2.1⟩
 
@@ -69,28 +69,30 @@ released while a successfully verified batch `b` was outstanding, contains exact
 account diff of `b` (in order), and each is the ideal signature by that account's key over the sighash
 preimage of `b.tx` at the input that spends the account's STORED outpoint (SIGHASH_ALL with the account's
 current output for p2wsh accounts, the taproot default sighash with the supplied prevouts otherwise). -/
-theorem C05_sign_only_pending (verifyOk : Batch → Bool) (accts : List Acct) (orders : List Ord)
+theorem C05_sign_only_pending (verifyOk : St → Batch → Bool) (accts : List Acct) (orders : List Ord)
     (ops : List Op) (r : Release)
-    (hr : r ∈ (grun verifyOk (initSt accts orders) ⟨none, []⟩ ops).2.log) :
-    ∃ b, r.batch = some b ∧ verifyOk b = true ∧
+    (hr : r ∈ (grun verifyOk (initSt accts orders) ⟨none, none, []⟩ ops).2.log) :
+    ∃ b s0, r.batch = some b ∧ r.verifiedAt = some s0 ∧ verifyOk s0 b = true ∧
       Forall2 (SigFor r.db b.tx r.prev) b.diffs r.sigs := by
-  obtain ⟨b, h1, h2, h3, _⟩ := (inv_grun verifyOk _ _ ops (inv_init verifyOk accts orders)).2.2 r hr
-  exact ⟨b, h1, h2, h3⟩
+  obtain ⟨b, s0, h1, h1', h2, h3, _⟩ := (inv_grun verifyOk _ _ ops (inv_init verifyOk accts orders)).2.2 r hr
+  exact ⟨b, s0, h1, h1', h2, h3⟩
 
 /-- **After staging.**  Whenever signatures were released, the database held – at the moment of return –
-the staged pending batch: the verified batch's id and transaction, with one staged row per account diff. -/
-theorem C05_release_after_stage (verifyOk : Batch → Bool) (accts : List Acct) (orders : List Ord)
+the staged pending batch: the verified batch's id and transaction, with one staged row per account diff, and
+each row is WHAT that diff says: the stored account moved to the diff's new outpoint / output (version only
+upwards) when re-created, left on the spent output when used up (`RowFor` / `stagedRow`). -/
+theorem C05_release_after_stage (verifyOk : St → Batch → Bool) (accts : List Acct) (orders : List Ord)
     (ops : List Op) (r : Release)
-    (hr : r ∈ (grun verifyOk (initSt accts orders) ⟨none, []⟩ ops).2.log) :
+    (hr : r ∈ (grun verifyOk (initSt accts orders) ⟨none, none, []⟩ ops).2.log) :
     ∃ b rows, r.batch = some b ∧
       r.staged = some { id := b.id, tid := b.tid, tx := b.tx, rows := rows } ∧
-      rows.map (·.key) = b.diffs.map (·.acct) := by
-  obtain ⟨b, h1, _, _, rows, h4, h5⟩ :=
+      rows.map (·.key) = b.diffs.map (·.acct) ∧ Forall2 (RowFor r.db) b.diffs rows := by
+  obtain ⟨b, _, h1, _, _, _, rows, h4, h5, h6⟩ :=
     (inv_grun verifyOk _ _ ops (inv_init verifyOk accts orders)).2.2 r hr
-  exact ⟨b, rows, h1, h4, h5⟩
+  exact ⟨b, rows, h1, h4, h5, h6⟩
 
 /-- the release log grows only by a `sign` op that returned signatures -/
-theorem C05_log_grows_only_on_ok (verifyOk : Batch → Bool) (s : St) (g : Ghost) (op : Op) :
+theorem C05_log_grows_only_on_ok (verifyOk : St → Batch → Bool) (s : St) (g : Ghost) (op : Op) :
     (gstep verifyOk s g op).2.log = g.log ∨
     ∃ f ns pv S N, op = .sign f ns pv ∧ (step verifyOk s op).2 = .sign (.ok S N) := by
   cases op with
@@ -114,7 +116,7 @@ theorem C05_log_grows_only_on_ok (verifyOk : Batch → Bool) (s : St) (g : Ghost
 /-- **A failed signing stages nothing.**  If the signer fails (unknown account, input not found, missing
 server nonce, signer-client error) or crashes, the database – in particular its staging area – is exactly as
 before the call. -/
-theorem C05_sign_fail_stages_nothing (verifyOk : Batch → Bool) (s : St) (f : Faults) (ns : List Key)
+theorem C05_sign_fail_stages_nothing (verifyOk : St → Batch → Bool) (s : St) (f : Faults) (ns : List Key)
     (pv : List Out)
     (h : (∃ e, (step verifyOk s (.sign f ns pv)).2 = .sign (.errSign e)) ∨
          (step verifyOk s (.sign f ns pv)).2 = .sign .panic) :
@@ -131,7 +133,7 @@ theorem C05_sign_fail_stages_nothing (verifyOk : Batch → Bool) (s : St) (f : F
 
 /-- **A failed staging releases nothing** (and leaves no partial staging): the outcome of a `BatchSign`
 whose storer fails is the bare error – it carries no signature – and the database is as before. -/
-theorem C05_stage_fail_releases_nothing (verifyOk : Batch → Bool) (s : St) (f : Faults) (ns : List Key)
+theorem C05_stage_fail_releases_nothing (verifyOk : St → Batch → Bool) (s : St) (f : Faults) (ns : List Key)
     (pv : List Out) (b : Batch) (S : List Sig) (N : List Key) (c : Ctr)
     (hb : (attachAux s ns pv).pending = some b)
     (hs : signerSign s.db b f = (.ok S N, c))
@@ -145,7 +147,7 @@ theorem C05_stage_fail_releases_nothing (verifyOk : Batch → Bool) (s : St) (f 
   refine ⟨?_, ?_⟩ <;> first | trivial | rfl
 
 /-- an injected store fault (before or inside the database transaction) never yields a release -/
-theorem C05_store_fault_never_releases (verifyOk : Batch → Bool) (s : St) (f : Faults) (ns : List Key)
+theorem C05_store_fault_never_releases (verifyOk : St → Batch → Bool) (s : St) (f : Faults) (ns : List Key)
     (pv : List Out) (hf : f.st ≠ .none) (S : List Sig) (N : List Key) :
     (step verifyOk s (.sign f ns pv)).2 ≠ .sign (.ok S N) := by
   intro h
@@ -155,12 +157,12 @@ theorem C05_store_fault_never_releases (verifyOk : Batch → Bool) (s : St) (f :
     rw [hbs] at h
     simp at h
     subst h
-    obtain ⟨_, _, _, _, _, _, hnone⟩ := batchSign_ok _ _ _ _ _ hbs
+    obtain ⟨_, _, _, _, _, _, hnone, _⟩ := batchSign_ok _ _ _ _ _ hbs
     exact hf hnone
 
 /-- a release implies that the staging area holds the pending batch at the moment of return (single step,
 any state) -/
-theorem C05_ok_implies_staged (verifyOk : Batch → Bool) (s : St) (f : Faults) (ns : List Key)
+theorem C05_ok_implies_staged (verifyOk : St → Batch → Bool) (s : St) (f : Faults) (ns : List Key)
     (pv : List Out) (S : List Sig) (N : List Key)
     (h : (step verifyOk s (.sign f ns pv)).2 = .sign (.ok S N)) :
     ∃ b rows, s.pending = some b ∧
@@ -181,91 +183,45 @@ theorem C05_ok_implies_staged (verifyOk : Batch → Bool) (s : St) (f : Faults) 
       subst hb'
       exact ⟨b0, rows, rfl, by simp [hs', attachAux], by simpa [attachAux] using hF⟩
 
-/-! ## The handler's Sign case -/
+/-! ## The handler's Sign case
 
-/-- **Send after sign.**  If the handler hands a sign message to the auctioneer, then – chronologically –
-`BatchSign` returned success immediately before it, the message carries exactly the signatures and nonces
-`BatchSign` returned, nothing was handed to the auctioneer earlier in this invocation, and at that moment
-the database holds the pending batch as staged. -/
-theorem C05_send_after_sign (s : St) (env : HEnv) (sigs : List Sig) (nonces : List Key)
-    (h : Ev.sendSign sigs nonces ∈ (handleSign s env).trace) :
-    (∃ post, (handleSign s env).trace.reverse =
-        [.parseSign, .chanSetup, .batchSign true, .sendSign sigs nonces] ++ post ∧
-        (post = [] ∨ post = [.sendReject])) ∧
-    (batchSign (attachAux s env.nonces env.prev) env.faults).2 = .ok sigs nonces ∧
-    ∃ b rows, s.pending = some b ∧
-      (handleSign s env).st.db.staged = some { id := b.id, tid := b.tid, tx := b.tx, rows := rows } := by
-  obtain ⟨hst, htr, _⟩ := handleSign_eq_spec s env
-  have hmem : Ev.sendSign sigs nonces ∈ (handleSignSpec s env).trace := by
-    rw [← htr]; simpa using h
-  rw [htr, hst]
-  unfold handleSignSpec at hmem ⊢
-  cases hsp : s.pending with
-  | none => cases hg : nilGuard <;> simp [hsp, hg] at hmem
-  | some b0 =>
-    simp only [hsp] at hmem ⊢
-    cases hpo : env.parseOk with
-    | false => simp [hpo] at hmem
-    | true =>
-      cases hco : env.chanOk with
-      | false => simp [hpo, hco] at hmem
-      | true =>
-        simp only [hpo, hco, Bool.not_true, Bool.false_eq_true, if_false] at hmem ⊢
-        cases hbs : batchSign (attachAux s env.nonces env.prev) env.faults with
-        | mk s2 o =>
-          simp only [hbs] at hmem ⊢
-          cases o with
-          | errSign e => simp at hmem
-          | errStore => simp at hmem
-          | panic => simp at hmem
-          | ok S N =>
-            obtain ⟨b', rows, hb', _, hs2, _, _⟩ := batchSign_ok _ _ _ _ _ hbs
-            have hb0 : b' = { b0 with nonces := env.nonces, prevOuts := env.prev } := by
-              simp [attachAux, hsp] at hb'; exact hb'.symm
-            cases hso : env.sendOk with
-            | true =>
-              simp [hso] at hmem
-              obtain ⟨h1, h2⟩ := hmem
-              subst h1; subst h2
-              simp only [hso, ↓reduceIte]
-              refine ⟨⟨[], rfl, Or.inl rfl⟩, ?_, b0, rows, ?_, ?_⟩
-              all_goals first | trivial | rfl | simp [hs2, hb0, attachAux]
-            | false =>
-              simp [hso] at hmem
-              obtain ⟨h1, h2⟩ := hmem
-              subst h1; subst h2
-              simp only [hso, Bool.false_eq_true, ↓reduceIte]
-              refine ⟨⟨[.sendReject], rfl, Or.inr rfl⟩, ?_, b0, rows, ?_, ?_⟩
-              all_goals first | trivial | rfl | simp [hs2, hb0, attachAux]
+Proved for every program passing `safeSign` (lemma `safe_run`), instantiated with the regenerated one. -/
 
-/-- **Error path.**  If `BatchSign` does not succeed (signing or staging failed), no sign message is handed
-to the auctioneer; unless the process crashed, the last thing handed over is a reject. -/
-theorem C05_handler_error_sends_no_sig (s : St) (env : HEnv)
-    (hfail : ∀ S N, (batchSign (attachAux s env.nonces env.prev) env.faults).2 ≠ .ok S N) :
-    (∀ S N, Ev.sendSign S N ∉ (handleSign s env).trace) ∧
-    ((handleSign s env).panicked = false → (handleSign s env).trace.head? = some .sendReject) := by
-  obtain ⟨_, htr, hpn⟩ := handleSign_eq_spec s env
-  have hrev : (handleSign s env).trace = (handleSignSpec s env).trace.reverse := by
-    rw [← htr]; simp
-  rw [hrev, hpn]
-  unfold handleSignSpec
-  cases hsp : s.pending with
-  | none => cases nilGuard <;> simp
-  | some b0 =>
-    cases hpo : env.parseOk with
-    | false => simp [hpo]
-    | true =>
-      cases hco : env.chanOk with
-      | false => simp [hpo, hco]
-      | true =>
-        cases hbs : batchSign (attachAux s env.nonces env.prev) env.faults with
-        | mk s2 o =>
-          rw [hbs] at hfail
-          cases o with
-          | ok S N => exact absurd rfl (hfail S N)
-          | errSign e => simp [hpo, hco, hbs]
-          | errStore => simp [hpo, hco, hbs]
-          | panic => simp [hpo, hco, hbs]
+/-- **Send after sign.**  Whenever the handler hands a sign message to the auctioneer (`post` = what
+happened later, `pre` = what happened before, newest first): the most recent `BatchSign` before it returned
+success; the message carries exactly the signatures and nonces that a `BatchSign` of this invocation returned,
+run on the handler's own pending batch `b` and account rows; they are the ideal signatures for `b`'s diffs
+over `b.tx`; and the staging area at the moment of the send holds `b` (id, transaction, one row per diff). -/
+theorem C05_send_after_sign (s : St) (env : HEnv) (post pre : List Ev) (S : List Sig) (N : List Key)
+    (g : Option Staged) (h : (handleSign s env).trace = post ++ Ev.sendSign S N g :: pre) :
+    lastSign pre = some true ∧
+    ∃ s0 s1 b rows, s0.pending = some b ∧ s0.pending.map Batch.core = s.pending.map Batch.core ∧
+      s0.db.accts = s.db.accts ∧ s0.db.orders = s.db.orders ∧
+      batchSign s0 env.faults = (s1, .ok S N) ∧
+      g = some { id := b.id, tid := b.tid, tx := b.tx, rows := rows } ∧
+      Forall2 (SigFor s0.db b.tx b.prevOuts) b.diffs S ∧ Forall2 (RowFor s0.db) b.diffs rows := by
+  obtain ⟨hgood, hrall, _, _⟩ := safe_run s env _ C05_handler_order
+  refine ⟨goodTr_split _ post pre S N g hgood h, ?_⟩
+  have hm : Ev.sendSign S N g ∈ (handleSign s env).trace := by rw [h]; simp
+  obtain ⟨s0, s1, hc, ha, ho, hbs, hg⟩ := hrall S N g hm
+  obtain ⟨b, rows, hb, hF, hs1, _, _, hrf⟩ := batchSign_ok _ _ _ _ _ hbs
+  exact ⟨s0, s1, b, rows, hb, hc, ha, ho, hbs, by rw [hg, hs1], hF, hrf⟩
+
+/-- **Error path.**  The handler always returns; if a `BatchSign` of this invocation failed (signing or
+staging failed) then – unless the process crashed – that failure is followed by exactly one more message to
+the auctioneer, a reject, and by nothing else: in particular no sign message is sent after a failed
+`BatchSign`. -/
+theorem C05_handler_error_sends_no_sig (s : St) (env : HEnv) :
+    (handleSign s env).done = true ∧
+    (Ev.batchSign false ∈ (handleSign s env).trace →
+      (handleSign s env).panicked = true ∨
+      ∃ tr', (handleSign s env).trace = .sendReject :: .batchSign false :: tr' ∧ Ev.batchSign false ∉ tr') := by
+  obtain ⟨_, _, hfs, hd⟩ := safe_run s env _ C05_handler_order
+  refine ⟨hd, fun hm => ?_⟩
+  rcases hfs with h1 | h2 | h3
+  · exact absurd hm h1
+  · exact Or.inl h2
+  · exact Or.inr h3
 
 /-! ## Signatures bind the transaction -/
 
@@ -273,11 +229,11 @@ theorem C05_handler_error_sends_no_sig (s : St) (env : HEnv)
 digest `H`) does not verify for a transaction whose outputs – or inputs, or locktime – differ in any way
 from the batch transaction it was made for: the digest differs, hence the ideal signature is invalid. -/
 theorem C05_sig_binds_tx {α : Type} (H : Preimage → α) (hH : Function.Injective H)
-    (t : Bool) (tx tx' : Tx) (idx : Nat) (sp sp' : List Out) (k : Key) (hne : tx ≠ tx') :
+    (t : Bool) (tx tx' : Tx) (idx : Nat) (sp sp' : List Out) (k : Key) (o : Out) (hne : tx ≠ tx') :
     H (preimage t (if t then htTaproot else htP2wsh) tx idx sp) ≠
       H (preimage t (if t then htTaproot else htP2wsh) tx' idx sp') ∧
-    Sig.verify k (preimage t (if t then htTaproot else htP2wsh) tx' idx sp')
-      ⟨k, preimage t (if t then htTaproot else htP2wsh) tx idx sp⟩ = false := by
+    Sig.verify k o (preimage t (if t then htTaproot else htP2wsh) tx' idx sp')
+      ⟨k, o, preimage t (if t then htTaproot else htP2wsh) tx idx sp⟩ = false := by
   have hp : preimage t (if t then htTaproot else htP2wsh) tx idx sp ≠
       preimage t (if t then htTaproot else htP2wsh) tx' idx sp' :=
     fun h => hne (preimage_injective t tx tx' idx idx sp sp' h).1
@@ -289,13 +245,138 @@ theorem C05_sig_commits_to_all_outputs {α : Type} (H : Preimage → α) (hH : F
     (t : Bool) (tx : Tx) (outs' : List Out) (idx : Nat) (sp : List Out) (hne : tx.outs ≠ outs') :
     H (preimage t (if t then htTaproot else htP2wsh) tx idx sp) ≠
       H (preimage t (if t then htTaproot else htP2wsh) { tx with outs := outs' } idx sp) :=
-  (C05_sig_binds_tx H hH t tx { tx with outs := outs' } idx sp sp 0
+  (C05_sig_binds_tx H hH t tx { tx with outs := outs' } idx sp sp 0 0
     (fun h => hne (by rw [h]))).1
 
-/-- the honest signature verifies for the transaction it was made for -/
-theorem C05_sig_valid_for_batch_tx (t : Bool) (ht : Nat) (tx : Tx) (idx : Nat) (sp : List Out) (k : Key) :
-    Sig.verify k (preimage t ht tx idx sp) ⟨k, preimage t ht tx idx sp⟩ = true := by
-  simp [Sig.verify]
+/-- a signature made for the script context of one output (say the account output with the batch's NEW
+expiry) does not help to spend another one (the output actually on chain) -/
+theorem C05_sig_binds_output (k : Key) (o o' : Out) (m : Preimage) (hne : o ≠ o') :
+    Sig.verify k o' m ⟨k, o, m⟩ = false := by
+  simp [Sig.verify, hne]
+
+/-- **Validly spends the account's current output in exactly that transaction.**  The signature
+`batchSigner.Sign` produces for a diff verifies for the STORED account's current output, under the account's
+key, over the sighash preimage of the batch transaction at the input spending the stored outpoint. -/
+theorem C05_released_sig_spends_current_output (db : DB) (tx : Tx) (prev : List Out) (d : Diff) (σ : Sig)
+    (h : SigFor db tx prev d σ) :
+    ∃ a idx, getAccount db d.acct = some a ∧ tx.ins[idx]? = some a.outpoint ∧
+      Sig.verify d.acct a.out σ.msg σ = true ∧
+      σ.msg = (if a.version ≥ versionTaprootEnabled
+               then preimage true htTaproot tx idx (prev.take tx.ins.length)
+               else preimage false htP2wsh tx idx [a.out]) := by
+  obtain ⟨a, idx, ha, _, hin, hk, ho, hm⟩ := h
+  exact ⟨a, idx, ha, hin, by simp [Sig.verify, hk, ho], hm⟩
+
+/-! ## Interleavings made explicit: re-proposals, rejected proposals, finalisation
+
+`lastOkValidate` scans a history's (op, result) pairs on its own – it does not look at the model state or
+at the ghost – and returns the batch of the last `validate` that returned success, unless a successful
+`finalize` came after it. -/
+
+def lastOkStep (cur : Option Batch) (x : Op × Res) : Option Batch :=
+  match x with
+  | (.validate b, .val none) => some b
+  | (.finalize _ _, .fin .ok) => none
+  | _ => cur
+
+def lastOkValidate (xs : List (Op × Res)) : Option Batch := xs.foldl lastOkStep none
+
+theorem grun_eq_run (verifyOk : St → Batch → Bool) (s : St) (g : Ghost) (ops : List Op) :
+    (grun verifyOk s g ops).1 = (run verifyOk s ops).1 ∧
+    (grun verifyOk s g ops).2.lastVerified =
+      (ops.zip (run verifyOk s ops).2).foldl lastOkStep g.lastVerified := by
+  induction ops generalizing s g with
+  | nil => exact ⟨rfl, rfl⟩
+  | cons op ops ih =>
+    have hs : (gstep verifyOk s g op).1 = (step verifyOk s op).1 := rfl
+    have hg : (gstep verifyOk s g op).2.lastVerified = lastOkStep g.lastVerified (op, (step verifyOk s op).2) := by
+      simp only [gstep, lastOkStep]
+      cases op with
+      | validate b => cases h : (step verifyOk s (.validate b)).2 <;> try rfl
+                      rename_i e; cases e <;> rfl
+      | sign f ns pv => cases h : (step verifyOk s (.sign f ns pv)).2 <;> try rfl
+                        rename_i o; cases o <;> rfl
+      | finalize id mf => cases h : (step verifyOk s (.finalize id mf)).2 <;> try rfl
+                          rename_i o; cases o <;> rfl
+      | unstage => cases h : (step verifyOk s .unstage).2 <;> rfl
+    have := ih (gstep verifyOk s g op).1 (gstep verifyOk s g op).2
+    simp only [grun, run, List.zip_cons_cons, List.foldl_cons]
+    rw [hs] at this
+    rw [← hg]
+    exact this
+
+/-- **Signatures are for the batch of the last successful verification – whatever happened in between.**
+For every history `ops` (proposals accepted or rejected, re-proposals with the same or another ID, sign
+requests that failed or succeeded, finalisations, unstaging) followed by a sign request that returns
+signatures: the independent scan of the history finds a last successfully verified, not yet finalised batch
+`b`, it satisfied the verifier, and the signatures are exactly those for `b` (one per diff, over `b.tx`). -/
+theorem C05_release_is_for_last_ok_validate (verifyOk : St → Batch → Bool) (accts : List Acct) (orders : List Ord)
+    (ops : List Op) (f : Faults) (ns : List Key) (pv : List Out) (S : List Sig) (N : List Key)
+    (h : (step verifyOk (run verifyOk (initSt accts orders) ops).1 (.sign f ns pv)).2 = .sign (.ok S N)) :
+    ∃ b, lastOkValidate (ops.zip (run verifyOk (initSt accts orders) ops).2) = some b ∧
+      (∃ s0, verifyOk s0 b = true) ∧
+      Forall2 (SigFor (run verifyOk (initSt accts orders) ops).1.db b.tx pv) b.diffs S := by
+  obtain ⟨hst, hlv⟩ := grun_eq_run verifyOk (initSt accts orders) ⟨none, none, []⟩ ops
+  have hinv := inv_grun verifyOk _ _ ops (inv_init verifyOk accts orders)
+  obtain ⟨b0, rows, hp0, _, hF⟩ := C05_ok_implies_staged verifyOk _ f ns pv S N h
+  rw [hst] at hinv
+  obtain ⟨hcore, hv, _⟩ := hinv
+  rw [hp0] at hcore
+  cases hl : (grun verifyOk (initSt accts orders) ⟨none, none, []⟩ ops).2.lastVerified with
+  | none => rw [hl] at hcore; simp at hcore
+  | some bl =>
+    rw [hl] at hcore
+    simp at hcore
+    have htx : bl.tx = b0.tx := (congrArg Batch.tx hcore).symm
+    have hdf : bl.diffs = b0.diffs := (congrArg Batch.diffs hcore).symm
+    refine ⟨bl, ?_, (let ⟨s0, _, h0⟩ := hv bl hl; ⟨s0, h0⟩), ?_⟩
+    · unfold lastOkValidate; rw [← hlv, hl]
+    · rw [htx, hdf]; exact hF
+
+/-- **Nothing is signed without an outstanding verified batch**: if the scan of the history finds no
+successfully verified batch that has not been finalised since (never any, all rejected, or the last one was
+finalised), every sign request – with any faults and any Sign-message data – releases nothing (in the model
+it is the nil-dereference crash of `batchSigner.Sign`). -/
+theorem C05_no_release_without_verified_batch (verifyOk : St → Batch → Bool) (accts : List Acct)
+    (orders : List Ord) (ops : List Op) (f : Faults) (ns : List Key) (pv : List Out)
+    (h : lastOkValidate (ops.zip (run verifyOk (initSt accts orders) ops).2) = none) :
+    (step verifyOk (run verifyOk (initSt accts orders) ops).1 (.sign f ns pv)).2 = .sign .panic := by
+  obtain ⟨hst, hlv⟩ := grun_eq_run verifyOk (initSt accts orders) ⟨none, none, []⟩ ops
+  have hinv := inv_grun verifyOk _ _ ops (inv_init verifyOk accts orders)
+  rw [hst] at hinv
+  have hnone : (grun verifyOk (initSt accts orders) ⟨none, none, []⟩ ops).2.lastVerified = none := by
+    rw [hlv]; exact h
+  have hp : (run verifyOk (initSt accts orders) ops).1.pending = none := by
+    have := hinv.1
+    rw [hnone] at this
+    cases hpp : (run verifyOk (initSt accts orders) ops).1.pending with
+    | none => rfl
+    | some b => rw [hpp] at this; simp at this
+  simp only [step]
+  rw [batchSign_eq_spec]
+  simp [batchSignSpec, attachAux, hp]
+
+/-- a rejected proposal – in particular a rejected re-proposal with the ID of the pending batch – changes
+nothing: the pending batch, hence what a following sign request signs, stays the earlier verified one -/
+theorem C05_rejected_proposal_changes_nothing (verifyOk : St → Batch → Bool) (s : St) (b : Batch)
+    (h : (validate verifyOk s b).2 ≠ none) : (validate verifyOk s b).1 = s := by
+  unfold validate at *
+  split at h
+  · simp_all
+  · split at h <;> simp_all
+
+/-- an accepted proposal replaces the pending batch – also when it carries the ID of the batch pending so
+far (same-ID re-proposal): from then on only the new version is signed -/
+theorem C05_accepted_proposal_replaces_pending (verifyOk : St → Batch → Bool) (s : St) (b : Batch)
+    (h : (validate verifyOk s b).2 = none) :
+    (validate verifyOk s b).1.pending = some b ∧ verifyOk s b = true ∧ (validate verifyOk s b).1.db = s.db := by
+  unfold validate at *
+  split at h
+  · simp at h
+  · rename_i hv
+    split at h
+    · simp at h
+    · simp_all
 
 /-! ## Non-vacuity -/
 
@@ -315,33 +396,46 @@ end Ex
 
 /-- valid proposal → rejected re-proposal → sign: one release, of two signatures (one p2wsh, one taproot),
 for the first batch; the history meets the hypotheses of the three history theorems -/
-example : ((grun (·.vflag) (initSt Ex.accts Ex.orders) ⟨none, []⟩ Ex.hist).2.log.map
+example : ((grun (fun _ b => b.vflag) (initSt Ex.accts Ex.orders) ⟨none, none, []⟩ Ex.hist).2.log.map
     (fun r => (r.batch.map (·.tid), r.sigs.map (fun σ => (σ.key, σ.msg.taproot, σ.msg.idx, σ.msg.outs)),
                r.staged.map (·.id)))) =
     [(some 1, [(1, false, 1, [30, 31, 32]), (2, true, 2, [30, 31, 32])], some 5)] := by rfl
 
+/-- same-ID re-proposal that IS accepted, then sign, finalize, sign: the one release is for the second
+version (tid 2), and after the finalisation nothing is signed (hypotheses of
+`C05_release_is_for_last_ok_validate` / `C05_no_release_without_verified_batch`) -/
+example :
+    let b2 : Batch := { Ex.b with tid := 2, tx := ⟨[99, 10, 11], [30, 31, 34], 0⟩ }
+    let ops : List Op := [.validate Ex.b, .validate b2, .sign noFaults [2] [50, 20, 21], .finalize 5 false]
+    let r := run (fun _ b => b.vflag) (initSt Ex.accts Ex.orders) ops
+    (lastOkValidate ((ops.take 2).zip (run (fun _ b => b.vflag) (initSt Ex.accts Ex.orders) (ops.take 2)).2)).map (·.tid) = some 2 ∧
+    lastOkValidate (ops.zip r.2) = none ∧
+    (step (fun _ b => b.vflag) r.1 (.sign noFaults [2] [50, 20, 21])).2 = .sign .panic := by decide
+
 /-- signer fault at the second signer call: error, nothing staged (hypothesis of
 `C05_sign_fail_stages_nothing` is met) -/
-example : (step (·.vflag) (step (·.vflag) (initSt Ex.accts Ex.orders) (.validate Ex.b)).1
+example : (step (fun _ b => b.vflag) (step (fun _ b => b.vflag) (initSt Ex.accts Ex.orders) (.validate Ex.b)).1
     (.sign { noFaults with sf := some 1 } [2] [50, 20, 21])).2 = .sign (.errSign .signer) := by decide
 
 /-- store fault inside the transaction: error (hypotheses of `C05_stage_fail_releases_nothing` /
 `C05_store_fault_never_releases` are met) -/
-example : (step (·.vflag) (step (·.vflag) (initSt Ex.accts Ex.orders) (.validate Ex.b)).1
+example : (step (fun _ b => b.vflag) (step (fun _ b => b.vflag) (initSt Ex.accts Ex.orders) (.validate Ex.b)).1
     (.sign { noFaults with st := .inside } [2] [50, 20, 21])).2 = .sign .errStore := by decide
 
 /-- short prevouts with a taproot account: the crash outcome -/
-example : (step (·.vflag) (step (·.vflag) (initSt Ex.accts Ex.orders) (.validate Ex.b)).1
+example : (step (fun _ b => b.vflag) (step (fun _ b => b.vflag) (initSt Ex.accts Ex.orders) (.validate Ex.b)).1
     (.sign noFaults [2] [50, 20])).2 = .sign .panic := by decide
 
 /-- the handler hands over a sign message on the success path (hypothesis of `C05_send_after_sign`) -/
-example : ((handleSign (step (·.vflag) (initSt Ex.accts Ex.orders) (.validate Ex.b)).1 Ex.env).trace.reverse.map
-    (fun e => match e with | .sendSign S _ => S.length | _ => 0)) = [0, 0, 0, 2] := by decide
+example : ((handleSign (step (fun _ b => b.vflag) (initSt Ex.accts Ex.orders) (.validate Ex.b)).1 Ex.env).trace.reverse.filterMap
+    (fun e => match e with
+      | .sendSign S _ g => some (S.length + (g.map (·.id)).getD 0) | .batchSign ok => some (if ok then 1 else 0)
+      | _ => none)) = [1, 7] := by decide
 
 /-- … and only a reject when the signer fails (hypothesis of `C05_handler_error_sends_no_sig`) -/
-example : (handleSign (step (·.vflag) (initSt Ex.accts Ex.orders) (.validate Ex.b)).1
-    { Ex.env with faults := { noFaults with sf := some 0 } }).trace.reverse =
-    [.parseSign, .chanSetup, .batchSign false, .sendReject] := by decide
+example : (handleSign (step (fun _ b => b.vflag) (initSt Ex.accts Ex.orders) (.validate Ex.b)).1
+    { Ex.env with faults := { noFaults with sf := some 0 } }).trace.take 2 =
+    [.sendReject, .batchSign false] := by decide
 
 /-- two transactions differing in one output only (hypothesis of `C05_sig_binds_tx`) -/
 example : Ex.b.tx ≠ Ex.bBad.tx ∧ Ex.b.tx.ins = Ex.bBad.tx.ins := by decide
